@@ -9,7 +9,7 @@ U = 2.0 ** -72         # the unit in the last place of the double 1e-6 (= 472236
 NE = 4722366482869645  # mantissa of the double 1e-6
 NH = (NE - 1) // 2     # NH + (NH + 1) == NE: two stretches that add up to exactly the threshold
 STYLES = ['plain', 'ties', 'coalesce', 'reinserting', 'empty', 'mixed',
-          'pastadds', 'negkids', 'epsgrid', 'decimal', 'diverge']
+          'pastadds', 'negkids', 'epsgrid', 'decimal', 'diverge', 'clockrel']
 
 
 class FuelGuard(Exception):
@@ -31,6 +31,8 @@ def gen_history(rng, big):
         return style, gen_decimal(rng, nids)
     if style == 'diverge':
         return style, gen_diverge(rng, nids)
+    if style == 'clockrel':
+        return style, gen_clockrel(rng, nids)
     # callback behaviours: zero/small delays only towards larger ids (a DAG), self-reinsertion
     # only with a delay of at least 1/8 so that every history terminates
     for i in range(nids):
@@ -117,6 +119,34 @@ def gen_decimal(rng, nids):
         if rng.random() < 0.5:
             ops.append(('evolve', t))          # the same target again: must be accepted (a zero-length evolution)
     return ops
+
+
+def gen_clockrel(rng, nids):
+    """The idiom of the add_callback docstring: a callback re-inserts itself (or schedules another) at `self.t + period`,
+    relative to the CLOCK, which may rest up to 1e-6 below the callback's own time.  `kids` entries carry the kind 'clock'.
+    The model's callbacks see their queue entry only, not the clock, so these histories are checked by the property
+    oracle alone (hypothesis-free clauses; order/clock-ahead only while no child landed before its parent's time)."""
+    ops = []
+    for i in range(nids):
+        kids = []
+        if rng.random() < 0.6:
+            kids.append((float(rng.integers(1, 9)) / 8.0 + TINY * int(rng.integers(0, 3)), i, 'clock'))
+        if i + 1 < nids and rng.random() < 0.5:
+            d = [0.0, TINY * int(rng.integers(0, 6)), float(rng.integers(0, 5)) / 4.0][int(rng.integers(0, 3))]
+            kids.append((d, int(rng.integers(i + 1, nids)), 'clock' if rng.random() < 0.7 else 'own'))
+        if kids:
+            ops.append(('kids', i, kids))
+    t = 0.0
+    for _ in range(int(rng.integers(1, 5))):
+        for _ in range(int(rng.integers(0, 6))):
+            ops.append(('add', t + float(rng.integers(0, 9)) / 4.0 + TINY * int(rng.integers(0, 7)), int(rng.integers(0, nids))))
+        t = t + float(rng.integers(0, 13)) / 4.0 + TINY * int(rng.integers(0, 6))
+        ops.append(('evolve', t))
+    return ops
+
+
+def clock_relative(ops):
+    return any(op[0] == 'kids' and any(len(k) > 2 and k[2] == 'clock' for k in op[2]) for op in ops)
 
 
 def gen_diverge(rng, nids):
@@ -278,8 +308,13 @@ def run_real(ops):
 
         def cb():
             s.events.append(('F', t, ctr, cid, fl(s.t)))
-            for d, child in kids.get(cid, []):
-                if 'clockobj' in mode and d == 0 and fl(s.t) == t:
+            for d, child, kind in kids.get(cid, []):
+                if kind == 'clock':
+                    tc = fl(s.t) + d                # the docstring idiom: self.t + period
+                    if tc < t:
+                        wf[0] = False               # the clock lagged: the child is due before its parent's time
+                    add(tc, child)
+                elif 'clockobj' in mode and d == 0 and fl(s.t) == t:
                     add(t, child, obj=s.t)          # "now", spelled as the clock object itself
                 else:
                     add(t + d, child)
@@ -300,8 +335,8 @@ def run_real(ops):
     adds_from_clock = True      # every add_callback from outside was for a time >= the clock at that moment (Lean: Inv.future)
     for op in ops:
         if op[0] == 'kids':
-            kids[op[1]] = [(float(d), int(c)) for d, c in op[2]]
-            if any(float(d) < 0 for d, c in op[2]):
+            kids[op[1]] = [(float(k[0]), int(k[1]), (k[2] if len(k) > 2 else 'own')) for k in op[2]]
+            if any(float(k[0]) < 0 for k in op[2]):
                 wf[0] = False
         elif op[0] == 'mode':
             mode.add(op[1])
@@ -419,7 +454,7 @@ def model_lines(ops):
     fuel = FUEL
     for op in ops:
         if op[0] == 'kids':
-            lines.append('C20 kids %d %s' % (op[1], ','.join('%s:%d' % (rat(d), c) for d, c in op[2])))
+            lines.append('C20 kids %d %s' % (op[1], ','.join('%s:%d' % (rat(k[0]), k[1]) for k in op[2])))
         elif op[0] == 'add':
             lines.append('C20 add %s %d' % (rat(op[1]), op[2]))
         elif op[0] == 'mode':
@@ -592,6 +627,9 @@ DIRECTED = [
     ('epsgrid', [('add', NH * U, 0), ('add', NE * U, 1), ('add', (NE + 1) * U, 2), ('evolve', (NE + NH + 1) * U)]),
     ('epsgrid', [('add', 1 * U, 0), ('evolve', (NE + 1) * U), ('evolve', (NE + 2) * U)]),
     # doubles that are not dyadic: the subtraction t_next - self.t rounds
+    # the docstring idiom `add_callback(self.t + period, ...)`: clock-relative children (oracle only)
+    ('clockrel', [('kids', 0, [(0.25, 0, 'clock')]), ('add', 1.0, 0), ('add', 1.0 + 2 * TINY, 0), ('evolve', 2.0), ('evolve', 3.0 + TINY)]),
+    ('clockrel', [('kids', 1, [(0.0, 2, 'clock')]), ('add', 1.0, 0), ('add', 1.0 + 2 * TINY, 1), ('evolve', 2.0)]),
     ('decimal', [('evolve', 20.2), ('evolve', 53.6), ('evolve', 53.6)]),
     ('decimal', [('add', 53.6, 0), ('evolve', 20.2), ('evolve', 62.4)]),
     ('decimal', [('add', 0.1, 0), ('add', 0.3, 1), ('add', 0.1 + 0.2, 2), ('add', 0.7, 3), ('evolve', 0.7), ('evolve', 0.7), ('evolve', 1.3)]),
@@ -662,6 +700,10 @@ def run(ctx):
     observations = []
     for style, ops in hist:
         obs = check_history(ctx, style, ops)
+        if clock_relative(ops):
+            ctx.count('histories_oracle_only_clock_relative_children')
+            ctx.count('clock_relative_wf:%s' % (obs[-1]['wf'] if obs else True))
+            continue
         lines, idx = model_lines(ops)
         base = len(all_lines)
         all_lines += lines
